@@ -13,8 +13,8 @@ CHECKS = {
          'rejection iff a quadrant is undefined; refutation theorems for the recorded Fourier finding. The hand-written '
          'model coq/model/Symmetry.v is tied to abel/tools/symmetry.py by a correspondence run (model evaluated by '
          'vm_compute on exact rationals vs implementation) on every invocation, and the clauses are also evaluated directly '
-         'on the implementation (search) to produce replays.'),
-   note=BASE_NOTE + 'Model of symmetry.py is hand-written (tied by correspondence, not verified); Fourier branch modelled by the DFT identity g[j]=(f[j]+f[-j mod m])/2.',
+         'on the implementation (search) to produce replays, also observed through abel.Transform (rejection and mirror clauses) and on narrower dtypes (the result must equal that of the float64 copy). get_image_quadrants / put_image_quadrants are REGENERATED from the source on every run and proved equal to the model (C06_model_is_source).'),
+   note=BASE_NOTE + 'Model of symmetry.py is hand-written, tied by the translator + equality proof and by correspondence; the nested real_components() of the Fourier branch is pinned textually and modelled by the DFT identity g[j]=(f[j]+f[m-1-j])/2 (validated by correspondence, not proved); dtype conversions are identities in the model.',
    technique='Coq proof over list-of-rows model + vm_compute correspondence + property search on implementation',
    design='DESIGN.md §3 C06'),
  'C05': dict(
@@ -35,7 +35,7 @@ CHECKS = {
          'answered by an inverse. Decided by vm_compute on the enumerated space (bound stated in the theorem). Every cell is '
          'executed on the implementation on every run (exhaustive tie) and classified by an independent closed-form Gaussian '
          'Abel pair as raise/forward/inverse, in three cache states (empty, after valid requests of the same method, repeated), plus the '
-         'linbasex quadrant front end. The direction guards, the shape guards and the sets of accepted option names of the model are REGENERATED from the '
+         'linbasex quadrant front end and 1-D / single-row data passed to linbasex_transform_full. The direction guards, the shape guards and the sets of accepted option names of the model are REGENERATED from the '
          'current source on every run (tools/translate/dir_guards.py, opt_names.py) and proved equal to the model / to the documented sets '
          '(C20_direction_guards_are_source, C20_shape_guards_are_source, C20_option_names_are_source).'),
    note=BASE_NOTE + 'Model of the guards is hand-written; direction/shape guards and option-name sets are tied by translators, the rest by executing all cells; option-FORMAT guards (tuple vs string, SVD factor range) are tied by execution only; theorems are closed under the global context (no axioms).',
